@@ -69,6 +69,7 @@ type Interp struct {
 	funcs    map[*ssa.Function]bool
 	nvar     int
 	maxConcr int
+	gaveUp   bool // the task was abandoned after too many solver timeouts
 	verbose  bool
 	stubs    map[string]*ssa.Function
 	sampleOK int // how many ok paths get a model for validation
@@ -312,8 +313,19 @@ func evalTerm(t *Term, m map[string]*big.Int) *big.Int {
 // ite over the sub-path conditions. Byte-compare loops in library code
 // (net.IP.To4, IPNet.Contains, bytes.Equal ...) then cost one path, not one
 // per byte. Impure or differently shaped sub-paths simply continue on their own.
+// maxUnknown: after this many solver timeouts a task is abandoned (reported
+// inconclusive) instead of paying the timeout again on every later query.
+const maxUnknown = 6
+
 func (in *Interp) Explore(st *State, stop int) {
 	for {
+		if in.sol.Unknown >= maxUnknown {
+			if !in.gaveUp {
+				in.gaveUp = true
+				in.record(st, &endPath{kind: "solver-unknown", msg: fmt.Sprintf("task abandoned after %d solver timeouts", in.sol.Unknown)})
+			}
+			return
+		}
 		fr, end, stopped := in.runUntilFork(st, stop)
 		if stopped {
 			n := len(in.collected) - 1
